@@ -25,7 +25,11 @@ type knownSet struct {
 
 func loadKnown() *knownSet {
 	ks := &knownSet{}
-	raw, err := os.ReadFile(filepath.Join(verifRoot(), "known_findings.json"))
+	path := filepath.Join(verifRoot(), "known_findings.json")
+	if p := os.Getenv("VERIF_KNOWN"); p != "" {
+		path = p // sensitivity work: a private list (e.g. the unchanged tree's findings) so that only what a mutant adds is reported and minimised
+	}
+	raw, err := os.ReadFile(path)
 	if err != nil {
 		return ks
 	}
